@@ -18,7 +18,7 @@ for d in sorted(glob.glob('seeded/*/')):
         rows.append((name, prop, 'patch does not apply any more', '')); continue
     subprocess.run(['git', '-C', '/repo', 'apply', patch], check=True)
     try:
-        r = subprocess.run(['bin/govc', 'check', prop, 'quick'], capture_output=True, text=True)
+        r = subprocess.run(['bin/govc', 'check', prop, 'quick'], capture_output=True, text=True, env=dict(os.environ, VERIF_EVIDENCE_DIR='/verif/out/evidence-scratch'))
     finally:
         subprocess.run(['git', '-C', '/repo', 'checkout', '--', '.'], check=True)
     out = [l for l in r.stdout.splitlines() if 'WARNING' not in l]
